@@ -962,6 +962,49 @@ fn run_sweep(base: &World, acc: &mut Acc) {
                 }
             }
         }
+        // tail-loss lattice: every combination of per-array tail losses on the three top-level
+        // arrays (inputs, instructions/gates, outputs) x size field in {as sent, 0, 1, 2} x first
+        // output in {as sent, 0, 1}: the degenerate circuits a receiver sees when only the head of
+        // every field arrives
+        if layout.len() >= 3 {
+            let (a_in, a_prog, a_out) = (0usize, 1usize, layout.len() - 1);
+            let out_tok = field_token(&msg, "output_regs").or_else(|| field_token(&msg, "output_gates"));
+            let size_tok = field_token(&msg, "max_reg_count");
+            let levels = |ai: usize| -> Vec<Option<MsgFault>> {
+                vec![
+                    None,
+                    Some(MsgFault::ArrayClear { index: ai }),
+                    Some(MsgFault::ArrayTruncate { index: ai, keep: 1 }),
+                    Some(MsgFault::ArrayTruncate { index: ai, keep: 2 }),
+                    Some(MsgFault::ArrayTruncate { index: ai, keep: 3 }),
+                ]
+            };
+            let sizes: Vec<Option<&str>> = if size_tok.is_some() { vec![None, Some("0"), Some("1"), Some("2")] } else { vec![None] };
+            for lo in levels(a_out) {
+                for lp in levels(a_prog) {
+                    for li in levels(a_in) {
+                        for sz in &sizes {
+                            for o0 in [None, Some("0"), Some("1")] {
+                                let mut fs = vec![];
+                                if let (Some(v), Some(t)) = (o0, out_tok) {
+                                    fs.push(MsgFault::NumReplace { index: t, with: v.to_string() });
+                                }
+                                if let (Some(v), Some(t)) = (sz, size_tok) {
+                                    fs.push(MsgFault::NumReplace { index: t, with: v.to_string() });
+                                }
+                                // outputs first, then the program, then the inputs: indices stay valid
+                                fs.extend(lo.clone());
+                                fs.extend(lp.clone());
+                                fs.extend(li.clone());
+                                if fs.len() >= 2 {
+                                    go(fs, acc);
+                                }
+                            }
+                        }
+                    }
+                }
+            }
+        }
         // two instructions / gates lost together
         for &(start, len, is_obj) in &layout {
             if is_obj && len >= 2 {
